@@ -23,7 +23,7 @@ REPLAYS = os.path.join(OUT, "replays" if not os.environ.get("VERIF_NO_EVIDENCE")
 EVIDENCE = os.path.join(VERIF, "evidence")
 KNOWN = os.path.join(VERIF, "known_findings.json")
 
-RUN_WALL_LIMIT = 30.0      # seconds of wall clock one run may take before it is called a hang
+RUN_WALL_LIMIT = 120.0     # seconds of wall clock one run may take before it is called a hang
 
 PROPS = ["C03", "C04", "C06", "C07", "C10", "C11", "C12", "C13", "C14", "C15", "C16", "C19", "C20"]
 
